@@ -952,6 +952,71 @@ def analyse_job_close(db, rep):
     return H.sites
 
 
+class JobReinsertHooks(JobCloseHooks):
+    """job_close(1) over a concrete job record: which queue gets the message back, with which time"""
+    precise = frozenset(['L:c', 'L:j', 'L:i'])
+
+    def __init__(self):
+        super().__init__()
+        self.ins = []
+
+    def site(self, *a, **k):
+        pass
+
+    def tracked_global(self, path):
+        return True
+
+    def precise_arith(self, path):
+        return True
+
+    def materialize(self, E, path):
+        if path == 'G:jo':
+            return fs(('&', 'JO[0]'))
+        return TOP
+
+    def prim_now(self, E, x, args):
+        return [Outcome(ret=fs(9000))]
+
+    def prim_prioq_insert(self, E, x, args):
+        q, pe = g1v(args[0]), g1v(args[1])
+        if not (isinstance(q, tuple) and q[0] == '&' and isinstance(pe, tuple) and pe[0] == '&'):
+            raise AnalysisBroken('job_close: prioq_insert() arguments are not object addresses')
+        self.ins.append((q[1], g1(E, pe[1] + '.id'), g1(E, pe[1] + '.dt'), g1(E, '$unl'), E.trace.list()))
+        return [Outcome(ret=fs(1))]
+
+
+def analyse_job_reinsert(db, rep):
+    prog = db.program('qmail-send')
+    fn = prog.fn('job_close', 'qmail-send.c')
+    bad = None
+    n = 0
+    for ch in (0, 1):
+        for eof in (0, 1):
+            for todo in (0, 2):
+                H = JobReinsertHooks()
+                eng = Engine(db, prog, H)
+                fid = eng.frame_id(fn)
+                eng.run(fn, {'%s::%s' % (fid, fn.params[0]): fs(1), 'JO[1].refs': fs(1), 'JO[1].id': fs(77), 'JO[1].retry': fs(5555), 'JO[1].channel': fs(ch),
+                             'JO[1].flaghiteof': fs(eof), 'JO[1].numtodo': fs(todo), 'JO[0].id': fs(11), 'JO[0].retry': fs(1111), 'JO[0].channel': fs(1 - ch)})
+                rep.count_states(eng.states, eng.transitions)
+                sysfail = db.unit('qmail-send.c').macro_int('SLEEP_SYSFAIL')
+                for q, pid, dt, unl, tr in H.ins:
+                    n += 1
+                    if q.startswith('G:pqchan'):
+                        # the channel file could not be removed: try again after SLEEP_SYSFAIL; otherwise the job's own retry time
+                        dt_ok = dt == 5555 or (unl == 0 and sysfail is not None and dt == 9000 + sysfail)
+                        if q != 'G:pqchan[%d]' % ch or pid != 77 or not dt_ok:
+                            bad = bad or ('a job of channel %d for message 77 with retry time 5555 is put back as (queue %s, id %s, time %s): the back-off computed for it is lost' % (ch, q, pid, dt), tr)
+                    elif q == 'G:pqdone':
+                        if pid != 77:
+                            bad = bad or ('message %s is moved to pqdone instead of message 77' % pid, tr)
+                    else:
+                        bad = bad or ('job_close inserts into %s' % q, tr)
+    if n < 6 and bad is None:
+        raise AnalysisBroken('job_close: only %d re-insertions explored' % n)
+    return {'jc:job-goes-back-to-its-own-channel-queue-with-its-retry-time': (bad is None, 'qmail-send.c:job_close', bad[0] if bad else '%d re-insertions' % n, bad[1] if bad else [])}
+
+
 # =============================================================================== cleanup_do
 class CleanupHooks(SendHooks):
     def __init__(self, ossified):
